@@ -272,6 +272,11 @@ fn shapes(quick: bool) -> Vec<Shape> {
     for start400 in -400..=400 { for (profile, sec, capped) in [(0u32, 5u32, true), (1, 8, true), (3, 6, false)] { if quick && start400 % 2 != 0 && profile != 0 { continue; } v.push(Shape::LatheTurn { profile, sec, start400, capped }); } }
     // many segments (accumulated altitude / height stepping): every count up to 200 on a few sector counts
     for seg in 11..=200u32 { for r in [0.5f32, 1.0, 3.0] { v.push(Shape::Sphere { sec: 3 + seg % 3, seg, r }); } v.push(Shape::Cone { sec: 4, seg, capped: true, rb: 1.0, ra: 0.0 }); v.push(Shape::Cone { sec: 4, seg, capped: true, rb: 0.0, ra: 0.4 }); v.push(Shape::Capsule { sec: 3, body: 1, cap: seg, r: 0.5 }); }
+    // every sector count up to 300 on one member of each family (ring generation may work in blocks)
+    for sec in 17..=300u32 { v.push(Shape::Sphere { sec, seg: 2 + sec % 2, r: 1.0 }); v.push(Shape::Torus { maj: sec, min: 3, rmaj: 2.0, rmin: 0.5 }); v.push(Shape::Cyl { sec, seg: 1, capped: true, r: 0.5 }); v.push(Shape::Cone { sec, seg: 1, capped: true, rb: 1.0, ra: 0.0 }); v.push(Shape::Capsule { sec, body: 1, cap: 2, r: 0.5 }); }
+    // every tube sector count up to 100 x tube radii 0.25 .. 7.5 (the closed tube profile is built by accumulating an angle:
+    // whether its end meets its start exactly depends on both)
+    for min in 3..=100u32 { for rmin in [0.25f32, 0.5, 1.0, 2.0, 4.0, 7.5] { v.push(Shape::Torus { maj: 5, min, rmaj: rmin * 3.0, rmin }); } }
     // many sectors (accumulated rotation of the profile)
     for sec in [154u32, 155, 200, 500, 720, 1000, 2000] { v.push(Shape::Sphere { sec, seg: 2, r: 1.0 }); v.push(Shape::Cyl { sec, seg: 1, capped: true, r: 0.5 }); }
     v.push(Shape::Sphere { sec: 100, seg: 60, r: 3.0 });
